@@ -147,16 +147,46 @@ impl<C: Col> DrawTarget for LogNative<C> {
         let mut it = colors.into_iter();
         let mut v = Vec::new();
         let mut over = false;
-        loop {
+        // the stream is pulled along rotating routes: next() only, internal iteration only (for_each = fold), a few
+        // next() calls followed by internal iteration of the rest (also through Map / Enumerate, which forward fold)
+        let route = self.calls.len() % 4;
+        let lead = match route {
+            0 => usize::MAX,
+            1 => 0,
+            2 => 1 + self.calls.len() % 3,
+            _ => 1 + (area.size.width as usize + self.calls.len()) % 5,
+        };
+        let mut pulled = 0usize;
+        let mut ended = false;
+        while pulled < lead {
             match it.next() {
-                None => break,
+                None => {
+                    ended = true;
+                    break;
+                }
                 Some(c) => {
                     if v.len() == cap {
                         over = true;
+                        ended = true;
                         break;
                     }
                     v.push(c.raw());
+                    pulled += 1;
                 }
+            }
+        }
+        if !ended {
+            let mut push = |c: C| {
+                if v.len() == cap {
+                    over = true;
+                } else {
+                    v.push(c.raw());
+                }
+            };
+            if route == 3 {
+                it.map(|c| c).enumerate().for_each(|(_, c)| push(c));
+            } else {
+                it.for_each(&mut push);
             }
         }
         self.calls.push(Call::FillContiguous { area: *area, colors: v, over });
